@@ -7,6 +7,8 @@ pub use read::JournalReader;
 use serde::{Deserialize, Serialize};
 pub use stream::{EventStreamMessage, EventStreamSender, start_event_streaming};
 pub use write::JournalWriter;
+#[cfg(feature = "verif")]
+pub use stream::{EventStreamReceiver, verif_prune_journal, verif_streaming_process};
 
 const HQ_JOURNAL_HEADER: &[u8] = b"hqjl0002";
 
